@@ -165,6 +165,11 @@ restart:
  * @param[in] drec
  */
 static void htp_gzip_decompressor_end(htp_decompressor_gzip_t *drec) {
+    // Whatever is in the output buffer has been handed out already (or is being
+    // abandoned); make sure it is not delivered again by a later call.
+    drec->stream.avail_out = GZIP_BUF_SIZE;
+    drec->stream.next_out = drec->buffer;
+
     if (drec->zlib_initialized == HTP_COMPRESSION_LZMA) {
         LzmaDec_Free(&drec->state, &lzma_Alloc);
         drec->zlib_initialized = 0;
